@@ -207,6 +207,19 @@ class C19(core.Check):
         self.stats.update(cells=len(cs_), corpus=len(CORPUS))
         return cases
 
+    def extra_search(self, budget_s):
+        """after a broken obligation (a regenerated table no longer equals the documentation): every cell x the whole corpus, until the budget is spent"""
+        import time
+        t0 = time.time()
+        for tag, prop in cells():
+            for tx in CORPUS + [None]:
+                for how in ('html', 'dot'):
+                    if how == 'dot' and tx is None:
+                        continue
+                    if time.time() - t0 > budget_s:
+                        return
+                    yield dict(tag=tag, prop=prop, state=[how, tx])
+
     def _element(self, case, independent=False):
         from AdvancedHTMLParser.Tags import AdvancedTag
         t = tables()
